@@ -423,12 +423,12 @@ func (v *cdecodeView) Exec(line string) (string, string, []string) {
 				tags = append(tags, "served")
 				switch res.Type {
 				case codec.ReqMget, codec.ReqDel, codec.ReqMset:
-					tags = append(tags, "dom:C06", "split")
+					tags = append(tags, "dom:C06", "dom:C05", "split")
 					fails = append(fails, checkSplit(name, args[1:], res.Frags)...)
 				case codec.ReqPing, codec.ReqQuit:
 					tags = append(tags, "local")
 				default:
-					tags = append(tags, "dom:C02", "single")
+					tags = append(tags, "dom:C02", "dom:C05", "single")
 					wantReq := encodeCmd(append([][]byte{lowerASCII(args[0])}, args[1:]...))
 					keyIdx := 1
 					if res.Type == codec.ReqEval || res.Type == codec.ReqEvalsha {
